@@ -11,7 +11,7 @@ feat = ["--features", "serde"] if "--features serde" in demo else []
 wt = tempfile.mkdtemp(prefix="confirm_", dir="/tmp")
 os.rmdir(wt)
 def sh(cmd, cwd=None):
-    p = subprocess.run(cmd, cwd=cwd, capture_output=True, text=True)
+    p = subprocess.run(cmd, cwd=cwd, capture_output=True, text=True, stdin=subprocess.DEVNULL)
     return p.returncode, (p.stdout + p.stderr)
 sh(["git", "-C", "/repo", "worktree", "add", "-q", "--detach", wt, "HEAD"])
 try:
